@@ -187,6 +187,9 @@ class Rules(LogicType.Rules):
             for n in self[PredNodes][branch]:
                 if n is node:
                     continue
+                if n.get('world') != w:
+                    # Identity is interpreted per world.
+                    continue
                 s = self.sentence(n)
                 if pa in s.params:
                     p_old, p_new = pa, pb
